@@ -112,3 +112,30 @@ MANIFEST_TEXT["C09"] = dict(
     text="Each generated rectangle set is pushed through removeoverlaps (both overloads, fixed subsets, third pass, preset borders) and judged from the public getters; the constraint generators are judged by longest paths in their output DAG, which decides the 'any satisfying placement' clause for that input exactly. Held on the executions observed; F5 (fixed = weight 10000) is a recorded finding matched by signature.",
     note="Trusts the harness' interval arithmetic and DAG longest-path code; ties in the other axis (touching rectangles, overlap <= 1e-9) are not required to be separated.",
 )
+
+CHECKS["C16"] = dict(
+    level="exploration",
+    exhaustive=False,
+    rule=("grid3/grid4: every ordered point triple / quadruple on a 5x5 (quick) or 6x6 (thorough) integer grid (one case = one (a,b) pair or (a,b,c) triple "
+          "against all grid points); poly: every non-degenerate triangle and simple quadrilateral on the grid x every grid query point; random: coordinates "
+          "up to 2^20 with forced collinear / shared-endpoint / parallel / touching configurations. non-trivial = the case contains a degenerate configuration "
+          "(a zero orientation, or a query point on the polygon boundary). distinct = distinct tuple index / coordinates"),
+    workloads=[
+        dict(harness="c16_geom", mode="grid3", quick=625, thorough=1296, fixed=True, watchdog=60, params=dict(grid=5), thorough_params=dict(grid=6), san_thorough=625),
+        dict(harness="c16_geom", mode="grid4", quick=15625, thorough=46656, fixed=True, watchdog=60, params=dict(grid=5), thorough_params=dict(grid=6), san_thorough=15625),
+        dict(harness="c16_geom", mode="poly", quick=15625 + 390625, thorough=46656 + 1679616, fixed=True, watchdog=60, params=dict(grid=5), thorough_params=dict(grid=6)),
+        dict(harness="c16_geom", mode="random", quick=3000000, thorough=40000000, watchdog=60, san_thorough=200000),
+    ],
+    min_nontrivial=dict(quick=20000, thorough=100000),
+    max_inconclusive=0.0,
+    require_obs=["tuples", "polygon_queries", "convex_positive_polygons", "other_simple_polygons"],
+    exhaustive_note="grid3, grid4 and poly enumerate their finite spaces completely (5x5 grid in quick: 15,625 triples, 390,625 quadruples, all triangles/simple quadrilaterals x 25 query points; 6x6 in thorough); 'random' is sampled",
+    assumptions=["pointOnLine/inBetween are judged against the OPEN-segment meaning both code branches implement (the header comment says 'closed'; the discrepancy is noted in DESIGN.md, not judged)",
+                 "inPoly is queried only with positively oriented convex polygons, as the library requires",
+                 "intersection points: within 8 ulp of the largest input coordinate (times 1+|t| for ray intersections) of the exact rational point"],
+)
+MANIFEST_TEXT["C16"] = dict(
+    technique="runtime monitor: exhaustive enumeration of small integer grids + random large integers, each predicate compared with an exact __int128 / rational reference; swap/reverse symmetry checks",
+    text="The finite grid spaces are enumerated completely and every predicate result is compared with exact integer arithmetic, so within those spaces the verdict is exhaustive; larger coordinates are sampled with forced degeneracies. Exploration level overall because the property also speaks of coordinates up to 2^20.",
+    note="Trusts the harness' __int128 reference predicates; semantics of pointOnLine (open segment) and segmentShapeIntersect (half-open touching rule) taken from the code's documented behaviour.",
+)
